@@ -218,6 +218,13 @@ fn translate_select_pipeline(
         (None, limit.map(expr_of_i64))
     };
 
+    // Some dialects accept OFFSET only after a LIMIT: an open-ended range gets a limit of "all rows"
+    let limit = if limit.is_none() && offset.is_some() && ctx.dialect.offset_requires_limit() {
+        Some(expr_of_i64(i64::MAX))
+    } else {
+        limit
+    };
+
     // If we have a FETCH we need to make sure that:
     // - we have an OFFSET (set to 0)
     // - we have an ORDER BY (see https://stackoverflow.com/a/44919325)
